@@ -100,6 +100,13 @@ def generate(repo, ws, write_if_changed):
              dict(kind="trait", name="HeaderRequestExt"),
              dict(kind="impl", impl=r"impl HeaderRequestExt for HeaderRequest"),
          ]))
+    emit("extended_header_c02.rs", slice_file(repo, "types/src/extended_header.rs", [
+        dict(kind="const", name="VERIFY_CLOCK_DRIFT"),
+        dict(kind="fn", name="verify", impl=r"^impl ExtendedHeader$", wrap="impl ExtendedHeader"),
+        dict(kind="fn", name="verify_adjacent", impl=r"^impl ExtendedHeader$", wrap="impl ExtendedHeader"),
+        dict(kind="fn", name="verify_range", impl=r"^impl ExtendedHeader$", wrap="impl ExtendedHeader"),
+        dict(kind="fn", name="verify_adjacent_range", impl=r"^impl ExtendedHeader$", wrap="impl ExtendedHeader"),
+    ]))
     emit("commitment_c12.rs", slice_file(repo, "types/src/blob/commitment.rs", [
         dict(kind="fn", name="merkle_mountain_range_sizes"),
         dict(kind="fn", name="blob_min_square_size"),
